@@ -173,14 +173,16 @@ Response(S, c) ==
     ELSE LET fs == Faults(S, c) IN IF fs # {} THEN Err(fs) ELSE Ok(OkBody(S, c))
 
 (* steps the statement does not determine are not part of the model *)
-Enabled(S, c) ==
-    \/ Response(S, c).status # 200
-    \/ CASE c.a = "Start"  -> S.sm[c.m].typ # "EXPRESS" /\ ~S.ex[ExecArnOf(c.m, c.e)].live
-         [] c.a = "Update" -> ~(c.r = "r_none" /\ c.d = "d_none" /\ c.l # "l_none")
-         [] OTHER -> TRUE
+(* (the ...R forms take the response R = Response(S, c), so that it is computed once) *)
+EnabledR(S, c, R) ==
+    IF R.status # 200 THEN TRUE
+    ELSE CASE c.a = "Start"  -> S.sm[c.m].typ # "EXPRESS" /\ ~S.ex[ExecArnOf(c.m, c.e)].live
+           [] c.a = "Update" -> ~(c.r = "r_none" /\ c.d = "d_none" /\ c.l # "l_none")
+           [] OTHER -> TRUE
+Enabled(S, c) == EnabledR(S, c, Response(S, c))
 
-Apply(S, c) ==
-    IF Response(S, c).status # 200 THEN S
+ApplyR(S, c, R) ==
+    IF R.status # 200 THEN S
     ELSE CASE c.a = "Create" ->
                 [S EXCEPT !.sm[ArnOf(c.n)] = [live |-> TRUE, name |-> c.n, def |-> c.d, role |-> c.r,
                                                typ |-> StoredType(c.t), log |-> StoredLog(c.l),
@@ -198,6 +200,7 @@ Apply(S, c) ==
                 [S EXCEPT !.ex[ExecArnOf(c.m, c.e)] = [live |-> TRUE, sm |-> c.m, name |-> c.e,
                                                        status |-> "RUNNING", input |-> c.i]]
            [] OTHER -> S
+Apply(S, c) == ApplyR(S, c, Response(S, c))
 
 (* the environment: the engine runs every started execution to its end (the valid *)
 (* definitions of the pools all succeed)                                          *)
@@ -210,17 +213,18 @@ EngineCall == Call("EngineRuns", "", "", "", "", "", "", "b_ok", "", "", "", "")
 
 (* ---- the state machine ---------------------------------------------------------- *)
 VARIABLES sm, ex, clock, resp
-vars == <<sm, ex, clock, resp>>
+apiVars == <<sm, ex, clock, resp>>
 Cur == [sm |-> sm, ex |-> ex, clock |-> clock]
 Post == [sm |-> sm', ex |-> ex', clock |-> clock']
 
-Init == /\ sm = InitState.sm /\ ex = InitState.ex /\ clock = 0
-        /\ resp = [call |-> NoCall, status |-> 200, types |-> {}, body |-> NoBody]
+ApiInit == /\ sm = InitState.sm /\ ex = InitState.ex /\ clock = 0
+           /\ resp = [call |-> NoCall, status |-> 200, types |-> {}, body |-> NoBody]
 
-Step(c) == /\ Enabled(Cur, c)
-           /\ LET R == Response(Cur, c)  T == Apply(Cur, c)
-              IN /\ sm' = T.sm /\ ex' = T.ex /\ clock' = T.clock
-                 /\ resp' = [call |-> c, status |-> R.status, types |-> R.types, body |-> R.body]
+Step(c) == LET R == Response(Cur, c)
+           IN /\ EnabledR(Cur, c, R)
+              /\ LET T == ApplyR(Cur, c, R)
+                 IN /\ sm' = T.sm /\ ex' = T.ex /\ clock' = T.clock
+                    /\ resp' = [call |-> c, status |-> R.status, types |-> R.types, body |-> R.body]
 
 CreateStateMachine(n, r, d, t, l, b)       == Step(CreateCall(n, r, d, t, l, b))
 UpdateStateMachine(m, r, d, l, b)          == Step(UpdateCall(m, r, d, l, b))
@@ -236,7 +240,7 @@ EngineRuns == /\ EngineEnabled(Cur)
               /\ resp' = [call |-> EngineCall, status |-> 200, types |-> {}, body |-> NoBody]
 
 (* the arguments of a malformed request do not matter: one call per action *)
-Next ==
+ApiNext ==
     \/ \E n \in Names, r \in CreateRoles, d \in CreateDefs, t \in Types, l \in Logs, b \in Bodies :
           CreateStateMachine(n, r, d, t, l, b)
     \/ \E m \in MachineArns, r \in UpdateRoles, d \in UpdateDefs, l \in Logs, b \in Bodies :
@@ -250,7 +254,7 @@ Next ==
     \/ \E m \in MachineArns, f \in Filters, b \in Bodies : ListExecutions(m, f, b)
     \/ EngineRuns
 
-Spec == Init /\ [][Next]_vars
+ApiSpec == ApiInit /\ [][ApiNext]_apiVars
 
 (* ---- what the statement says, as invariants and action properties -------------- *)
 TypeOK ==
@@ -265,7 +269,7 @@ TypeOK ==
 NoInternalError == resp.status \in {0, 200, 400}
 
 (* a request that is answered with an error (or that the statement leaves open) leaves every record as it was *)
-ErrorLeavesStore == [][resp'.status # 200 => (sm' = sm /\ ex' = ex)]_vars
+ErrorLeavesStore == [][resp'.status # 200 => (sm' = sm /\ ex' = ex)]_apiVars
 
 (* a created machine is described back unchanged, at once *)
 CreateThenDescribe ==
@@ -276,7 +280,7 @@ CreateThenDescribe ==
              /\ dsc.body.arn = ArnOf(c.n) /\ dsc.body.name = c.n /\ dsc.body.def = c.d /\ dsc.body.role = c.r
              /\ dsc.body.typ = StoredType(c.t) /\ dsc.body.log = StoredLog(c.l) /\ ~dsc.body.updated
              /\ \A a \in LiveArns \ {ArnOf(c.n)} : sm'[a] = sm[a]
-             /\ ex' = ex]_vars
+             /\ ex' = ex]_apiVars
 
 (* an update changes only the fields supplied, and updateDate strictly advances *)
 UpdateChangesOnlySupplied ==
@@ -288,7 +292,7 @@ UpdateChangesOnlySupplied ==
              /\ new.log  = (IF c.l = "l_none" THEN old.log ELSE StoredLog(c.l))
              /\ new.upd > old.upd
              /\ \A a \in LiveArns \ {c.m} : sm'[a] = sm[a]
-             /\ ex' = ex]_vars
+             /\ ex' = ex]_apiVars
 
 (* a delete is visible at once, through every operation that names the machine *)
 DeleteVisibleAtOnce ==
@@ -299,7 +303,7 @@ DeleteVisibleAtOnce ==
              /\ Response(Post, StartCall(m, "e1", "i1", "b_ok")).types = {"StateMachineDoesNotExist"}
              /\ \A it \in Response(Post, ListMachinesCall("b_ok")).body.items : it.arn # m
              /\ \A a \in LiveArns \ {m} : sm'[a] = sm[a]
-             /\ ex' = ex]_vars
+             /\ ex' = ex]_apiVars
 
 (* lists enumerate exactly the live set, with the status filter applied *)
 ListsEnumerateLiveSet ==
@@ -319,10 +323,10 @@ StartedIsRunning ==
     [][(resp'.call.a = "Start" /\ resp'.status = 200) =>
           LET x == resp'.body.arn
           IN /\ ex'[x].live /\ ex'[x].status = "RUNNING" /\ ex'[x].sm = resp'.call.m /\ ex'[x].input = resp'.call.i
-             /\ sm' = sm /\ \A y \in RealExecs \ {x} : ex'[y] = ex[y]]_vars
+             /\ sm' = sm /\ \A y \in RealExecs \ {x} : ex'[y] = ex[y]]_apiVars
 
 (* reading never writes *)
 ReadsAreReads ==
     [][resp'.call.a \in {"Describe", "DescribeForExec", "ListMachines", "DescribeExec", "ListExecs"}
-          => (sm' = sm /\ ex' = ex /\ clock' = clock)]_vars
+          => (sm' = sm /\ ex' = ex /\ clock' = clock)]_apiVars
 =============================================================================
